@@ -4,10 +4,15 @@
 package ont
 
 //@ func (*ONTHandler).MakeDepositProposal
-//@   property C20
+//@   property C20, C24
 //@   mode abstract
 //@   modifies Store
 //@   requires service != nil
+//@   ghost var verified bool = false
+//@   set after "err = ont.VerifyCrossChainMsg(service, params.SourceChainID, crossChainMsg, bookkeepers)" : verified := err == nil
+//@   -- C24: a cross-chain message root is stored (and from then on trusted for proofs) only after its signers were verified for this source chain
+//@   callsite[c24-verify-this-msg] VerifyCrossChainMsg#1 requires arg1 == params.SourceChainID && arg2 == crossChainMsg
+//@   callsite[c24-stored-only-verified] PutCrossChainMsg#1 requires verified && arg1 == params.SourceChainID && arg2 == crossChainMsg
 //@   ghost var pre Store
 //@   ghost var post Store
 //@   ghost var src uint64 = 0
